@@ -167,12 +167,12 @@ Theorem C08_variable_read : forall bexec (c c' : config F) vs name,
   execute_ast bexec c' vs (AVariable name) = execute_ast bexec c vs (AVariable name).
 Proof. exact variable_read_any_config. Qed.
 
-Theorem C08_assignment_stores_value : forall lx ck (c c' : config F) vs name e v vs1,
+Theorem C08_assignment_stores_value : forall lx ck (c c' : config F) vs name toks e v vs1,
   same_but_seps c c' ->
-  execute_ast (basic_execute lx ck) c vs e = Ok (IOk v, vs1) -> assoc name vs1 <> None ->
+  execute_ast (basic_execute lx ck) c vs e = Ok (IOk v, vs1) ->
   exists vs2 vs2',
-    execute_ast (basic_execute lx ck) c vs (AAssignment name e) = Ok (IOk v, vs2) /\
-    execute_ast (basic_execute lx ck) c' vs (AAssignment name e) = Ok (IOk v, vs2') /\
+    execute_ast (basic_execute lx ck) c vs (AAssignment name toks e) = Ok (IOk v, vs2) /\
+    execute_ast (basic_execute lx ck) c' vs (AAssignment name toks e) = Ok (IOk v, vs2') /\
     vs2 = vs2' /\ option_map (@v_data F) (assoc name vs2) = Some v.
 Proof. exact assignment_stores_value. Qed.
 
